@@ -15,6 +15,9 @@ MC = "acryo/molecules/core.py"
 
 
 def anchors(a: Anchors):
+    a.state("molecules_store_only_pos_rot_features", "acryo/molecules/core.py",
+            {"Molecules": ["_pos", "_rotator", "_features", "features", "class:groupby"]},
+            "a Molecules object stores positions, rotator and feature table and nothing derived from them (no memo that could go stale)")
     a.fact("subset_int_is_unit_slice", MC, "Molecules.subset", "int spec -> slice(spec, spec+1); negative / out of range rejected",
            lambda fn: all(t in norm(ast.unparse(fn)) for t in ["ifspec<0:raiseIndexError(", "ifspec>=len(self):raiseIndexError(",
                                                                "_spec=slice(spec,spec+1)", "pos=self.pos[_spec]",
